@@ -60,6 +60,8 @@ def inline_unit(unit, baseline):
         name = g["name"]
         if name in baseline or not g.get("static") or name in taken or "blocks" not in g:
             continue
+        if g.get("file", "").endswith(".h"):
+            continue        # an extracted helper lives next to its caller; a new inline function in a header is analysed as a function
         sites = []
         for fd in unit["functions"]:
             if fd is g or "blocks" not in fd:
